@@ -2,6 +2,7 @@
 C08 — users read only files their permission rules allow.
 -/
 import DtailModel.Model.Perm
+import DtailModel.Lemmas.GenPerm
 namespace Dtail.C08
 open Dtail
 
@@ -134,5 +135,41 @@ theorem C08_default_deny (fs : FsOracle) (m : MatchOracle) (path : Bytes) :
   have : ¬ (b!"paul" = Facts.scheduleUserBytes ∨ b!"paul" = Facts.continuousUserBytes) := by decide
   simp only [this, if_false]
   cases fs.resolve path <;> simp [iterateRules]
+
+/-! ### Tie G: internal/user/server/user.go as translated from the working tree on this run -/
+
+open Dtail.Go Dtail.Gen.User in
+/-- `splitPermission` and `User.iteratePaths` of the working tree are the model's `ruleBody` and `iterateRules`
+    over `parseRule` (the regexp engine behind `regexp.Compile` / `MatchString` is the parameter `ext`); a compile
+    error comes with the verdict `false` -/
+theorem C08_generated_rules_refine_model (ext : Ext) (u : User) (path ty p : Bytes) :
+    splitPermission ext p = (READFILES, ruleBody p) ∧
+    (User.iteratePaths ext u path ty).2.1 = iterateRules (GenPerm.oracleOf ext) ty path (u.permissions.map parseRule) false ∧
+    ((User.iteratePaths ext u path ty).2.2 ≠ none → (User.iteratePaths ext u path ty).2.1 = false) :=
+  ⟨GenPerm.splitPermission_spec ext p, GenPerm.iteratePaths_refines ext u path ty, GenPerm.iteratePaths_error_denies ext u path ty⟩
+
+open Dtail.Go Dtail.Gen.User in
+/-- **the rule evaluation of the working tree is the documented meaning of a rule list**: for every rule list —
+    prefixed or bare, allow or deny — and every resolved path, the translated `iteratePaths` says yes exactly when
+    every rule compiles and the last rule that matches is an allow rule -/
+theorem C08_generated_iteratePaths_is_spec (ext : Ext) (u : User) (clean : Bytes) :
+    (User.iteratePaths ext u clean READFILES).2.1 = specAllowed (GenPerm.oracleOf ext) clean (u.permissions.map parseRule) := by
+  rw [GenPerm.iteratePaths_refines]
+  have ht : ∀ r ∈ u.permissions.map parseRule, r.type = READFILES := by
+    intro r hr; obtain ⟨p, _, rfl⟩ := List.mem_map.1 hr; exact parseRule_type p
+  unfold specAllowed
+  cases hc : (u.permissions.map parseRule).all (fun r => (GenPerm.oracleOf ext r.regex clean).isSome) with
+  | true =>
+    rw [iterateRules_all_type _ clean _ false ht hc]
+    cases (List.filter (fun r => GenPerm.oracleOf ext r.regex clean = some true) (u.permissions.map parseRule)).getLast? <;> simp
+  | false =>
+    rw [iterateRules_compile_error _ clean _ false ht hc]; simp
+
+open Dtail.Go Dtail.Gen.User in
+/-- the statement is not empty: an allow rule, then a catch-all deny (what a revoked user has) -/
+example :
+    let ext : Ext := { parseFloat := fun _ => (0, none), reMatchRaw := fun re s => re.src == b!".*" || (re.src == b!"^/var/log/" && hasPrefix (b!"/var/log/") s) }
+    (User.iteratePaths ext { permissions := [b!"^/var/log/", b!"!.*"] } (b!"/var/log/app.log") READFILES).2.1 = false ∧
+    (User.iteratePaths ext { permissions := [b!"!.*", b!"readfiles:^/var/log/"] } (b!"/var/log/app.log") READFILES).2.1 = true := by decide
 
 end Dtail.C08
